@@ -1109,7 +1109,7 @@ fn run_template(c: &mut Ctx, cfg: &RunCfg, seq: u64, rep: &mut Report, lean: &mu
             next_deadline(c, cfg, seq, rep, lean, agree)?;
             next_deadline(c, cfg, seq, rep, lean, agree)?;
             if t == Template::DisputeFail {
-                c.w.vm.fault_plan.borrow_mut().rules.push(FaultRule { from: Some(c.miner_id), to: c.reporter.id().ok(), method: Some(METHOD_SEND), ordinal: None, exit: 7 });
+                c.w.vm.fault_plan.borrow_mut().rules.push(FaultRule { from: Some(c.miner_id), to: c.reporter.id().ok(), method: Some(METHOD_SEND), ordinal: None, exit: 7, ..Default::default() });
             }
             let dp = DisputeWindowedPoStParams { deadline: c.d_idx, post_index: 0 };
             let out = exec_checked(c, cfg, seq, rep, lean, agree, Kind::Dispute { post_index: 0, expect_valid: true }, c.reporter, c.miner, TokenAmount::zero(),
@@ -1131,7 +1131,7 @@ fn run_template(c: &mut Ctx, cfg: &RunCfg, seq: u64, rep: &mut Report, lean: &mu
             };
             c.w.vm.consensus_fault.replace(Some(ConsensusFault { target, epoch: fault_epoch, fault_type: ConsensusFaultType::DoubleForkMining }));
             if t == Template::CfFail {
-                c.w.vm.fault_plan.borrow_mut().rules.push(FaultRule { from: Some(c.miner_id), to: c.reporter.id().ok(), method: Some(METHOD_SEND), ordinal: None, exit: 7 });
+                c.w.vm.fault_plan.borrow_mut().rules.push(FaultRule { from: Some(c.miner_id), to: c.reporter.id().ok(), method: Some(METHOD_SEND), ordinal: None, exit: 7, ..Default::default() });
             }
             let p = ReportConsensusFaultParams { header1: vec![1], header2: vec![2], header_extra: vec![] };
             let out = exec_checked(c, cfg, seq, rep, lean, agree,
